@@ -20,7 +20,7 @@ TITLE = 'join is the relational inner/cross join and xor the anti-join; both ter
 STATEMENT = ('join returns, as a multiset of rows, exactly the pairs (l, r) whose keys are equal (int = same-valued float, None = None, '
              'NaN = NaN), with no key the cross product; xor returns exactly the rows of x whose key matches no row of y; both terminate '
              'and leave both operands unchanged')
-LEAN_FILES = ['Basic', 'Cmp', 'Sort', 'TableBasic', 'Join', 'JoinDriver', 'Tri', 'CmpLemmas', 'JoinLemmas', 'C02']
+LEAN_FILES = ['Basic', 'Cmp', 'Sort', 'TableBasic', 'Join', 'JoinDriver', 'Tri', 'CmpLemmas', 'JoinLemmas', 'KeyEq', 'JoinCols', 'C02']
 RULE = ('distinct protocol lines (one join / xor call on a pair of tables) on which the implementation returned a table and at '
         'least one of the two operands has 2 or more rows')
 TRUSTED = ['correspondence harness (pv.engine, pv.proto) and generators / reference join of pv.props.c02',
